@@ -622,7 +622,32 @@ impl Stringify for Element {
                 stringifier.write_str("template")?;
                 write_named_attr(stringifier, "is", &target.0, &target.1)?;
                 if !data.1.is_empty() {
-                    write_named_attr(stringifier, "data", &data.0, &data.1)?;
+                    match &data.1 {
+                        // data that is not an object literal stays in parentheses: `{{a}}` would be
+                        // read back as the object `{a}`, and a string literal as static text
+                        Value::Dynamic {
+                            expression,
+                            double_brace_location,
+                            ..
+                        } if !matches!(
+                            &**expression,
+                            Expression::LitObj { .. }
+                                | Expression::Plus { .. }
+                                | Expression::ToStringWithoutUndefined { .. }
+                        ) =>
+                        {
+                            stringifier.write_str(" ")?;
+                            stringifier.write_token("data", Some("data"), &data.0)?;
+                            stringifier.write_str(r#"=""#)?;
+                            stringifier.write_token("{{", None, &double_brace_location.0)?;
+                            stringifier.write_str("(")?;
+                            expression.stringify_write(stringifier)?;
+                            stringifier.write_str(")")?;
+                            stringifier.write_token("}}", None, &double_brace_location.1)?;
+                            stringifier.write_str(r#"""#)?;
+                        }
+                        _ => write_named_attr(stringifier, "data", &data.0, &data.1)?,
+                    }
                 }
             }
             ElementKind::Include { path } => {
